@@ -18,7 +18,7 @@ type ZPtrNamedHolder struct {
 func H_C16_typemapof_suffices() {
 	x := vInt32("x")
 	vStepLimit(400000)
-	switch vChoice("type", 5) {
+	switch vChoice("type", 6) {
 	case 0:
 		tm := TypeMapOf(reflect.TypeOf(&ZLists{}))
 		v := &ZLists{Ss: []string{"a"}, Is: []int32{x}, Ps: []*ZInner{{N: x, S: "p"}, nil}}
@@ -59,6 +59,28 @@ func H_C16_typemapof_suffices() {
 		vAssert("decode-noerr", err == nil)
 		g, ok := out.([]*ZInner)
 		vAssert("equal", ok && len(g) == 1 && g[0] != nil && g[0].N == x)
+	case 5: // the same type met first where it is not addressable: by value at top level, as a map value, in an interface
+		var w interface{}
+		switch vChoice("witness", 4) {
+		case 0:
+			w = ZPtrNamed{V: 1}
+		case 1:
+			w = map[string]ZPtrNamed{"k": {V: 1}}
+		case 2:
+			w = []interface{}{ZPtrNamed{V: 1}}
+		case 3:
+			w = struct{ In interface{} }{In: ZPtrNamed{V: 1}}
+		}
+		tm, nm := vExtract(w)
+		vStepLimit(0)
+		vAssert("custom-name-in-name-map", nm["ZPtrNamed"] == "com.example.PtrNamed")
+		vAssert("custom-name-in-type-map", tm["com.example.PtrNamed"] == reflect.TypeOf(ZPtrNamed{}))
+		// maps from one value serve another value of the type
+		bs, err := ToBytes(&ZPtrNamed{V: x}, nm)
+		vAssert("encode-noerr", err == nil)
+		out, err := ToObject(bs, tm)
+		g, ok := out.(*ZPtrNamed)
+		vAssert("suffices", err == nil && ok && g != nil && g.V == x)
 	case 4: // a custom class name declared on the pointer receiver
 		v := &ZPtrNamedHolder{P: &ZPtrNamed{V: x}, L: []*ZPtrNamed{{V: 2}}}
 		tm, nm := vExtract(v)
